@@ -76,6 +76,8 @@ ASSUMPTIONS = [
     "once the timeout has elapsed since every candidate last failure a request must be admitted also when an earlier, "
     "inconclusive probe left the breaker HALF_OPEN (not demanded of requests nested inside a probe still in flight)",
     "the state reported by get_circuit_breaker_stats() before a request is the state that request meets (sequential phases only)",
+    "an agent exception whose str() raises makes run() raise on the unchanged tree too (it formats the exception into the "
+    "reply): that is not judged here, the request counts as a definite failure and the breaker state is judged afterwards",
     "a raising on_block / on_permit observer is the caller's own exception: the reply it was handed stands for the returned "
     "one and all breaker clauses are judged from the stats afterwards",
     "a failure is recorded after the request's first agent has answered and before run() returns; for a request that was in "
@@ -93,10 +95,19 @@ EXPECT_PROBES = ("opened", "half_open_seen", "probe_success_closed", "probe_fail
                  "overlap_all_failing_judged", "overlap_certainly_open_judged", "post_continuation_request",
                  "preempted_while_holding_a_lock", "observer_raised", "request_in_flight_over_others",
                  "request_spans_clock_move", "last_failure_pinned_after_clock_move", "request_after_inconclusive_probe",
-                 "earlier_last_failure_candidates_pruned", "lock_boundary_schedule")
+                 "earlier_last_failure_candidates_pruned", "lock_boundary_schedule",
+                 "unrenderable_agent_exception", "late_outcome_recorded_while_open")
 
 EXEC_PERMITS = ("EXECUTE", "PERMIT")
-EXC = {"RuntimeError": RuntimeError, "ValueError": ValueError, "TimeoutError": TimeoutError, "KeyError": KeyError}
+class BadStr(Exception):
+    """An agent exception that cannot be rendered: str() / format() of it raise (half-constructed SDK error classes)."""
+
+    def __str__(self):
+        raise RuntimeError("this exception cannot be rendered")
+
+
+EXC = {"RuntimeError": RuntimeError, "ValueError": ValueError, "TimeoutError": TimeoutError, "KeyError": KeyError,
+       "BadStr": BadStr}
 LOGICS = [(11, "AND"), (2, "UNANIMOUS"), (3, "ASSESSOR_PRIORITY"), (1.5, "EXECUTOR_PRIORITY"), (1.5, "OR"), (1, "MAJORITY")]
 COST = 7
 
@@ -366,6 +377,8 @@ def gen(rng, tier, i):
                 for _ in range(max(0, m)):
                     inner.append([fresh] + _pair(rng, "failure", profile))
                     fresh += 1
+                if rng.random() < 0.4:
+                    ops[-1][2:4] = _pair(rng, rng.choice(["success", "success", "block"]), profile)   # the late outcome is no failure
                 ops[-1].append({"at": rng.choice(["executor", "executor", "assessor"]), "nested": inner,
                                 "stall": rng.choice([0.0, 0.5, timeout / 2, timeout / 2, timeout])})
                 ops.append(["clock", "rel", rng.choice([-1.0, -0.001, -0.001, 0.0, 0.001])])
@@ -619,6 +632,11 @@ class World:
             # and every breaker clause is judged as usual from the stats afterwards
             rec["action"], rec["blocked"] = r.seen[1], r.seen[2]
             self.k.probe("observer_raised")
+        elif out.kind == "raised" and "raise:BadStr" in (r.ez, r.ay):
+            # the unchanged loop formats the agent's exception into its reply: an exception whose str() raises makes run()
+            # raise on every tree.  That is the caller-visible part (not judged here); the breaker must have counted it.
+            rec["action"], rec["blocked"] = "RAISED", True
+            self.k.probe("unrenderable_agent_exception")
         return rec
 
     def not_returned(self, rec, site):
@@ -744,9 +762,18 @@ class World:
         # the state the outcome is recorded into: the state the request met - or, for a request that was in flight while
         # its agent ran other requests, the state sampled when that agent had finished (only then can it be recorded)
         if rec["mid"] is not None:
+            met = s0
             s0, fc0, trips0 = rec["mid"]
             probe_ctx, closed_ctx = s0 == "HALF_OPEN", s0 == "CLOSED"
             k.probe("request_in_flight_over_others")
+            if met == "CLOSED" and s0 == "OPEN":
+                # admitted before the trip, so it is no probe: whatever its outcome, it cannot close or half-open a breaker
+                # that others opened meanwhile (only a probe admitted after the timeout may)
+                k.probe("late_outcome_recorded_while_open")
+                if s1 != "OPEN":
+                    c_late = classify(logic, ez, ay) if asked else "cached"
+                    k.violation("isolation", "open_breaker_left_open_state_without_probe", c_late,
+                                f"request admitted while CLOSED, breaker OPEN when its agent had finished, {s1} when it returned")
         else:
             probe_ctx, closed_ctx = s0 in ("OPEN", "HALF_OPEN"), s0 == "CLOSED"
         if rec["t_ret"] != rec["t_inv"]:
